@@ -159,7 +159,7 @@ PROPS["C07"] = dict(
             dict(pkg="./index", entry="VerifC07", bounds="m=1,dim=2,grid=7,modes=2", reach=["searched"]),
             dict(pkg="./index", entry="VerifC07", bounds="m=2,maxlevel=0,modes=4,maxk=2,maxef=5", reach=["searched"]),
             dict(pkg="./index", entry="VerifC07", bounds="m=2,maxlevel=1,modes=1,maxk=3,maxef=4", reach=["searched"]),
-            dict(pkg="./index", entry="VerifC07", bounds="m=2,maxlevel=0,modes=2,maxk=2,maxef=4,defaults=1", max_seconds=3000, reach=["searched"]),
+            dict(pkg="./index", entry="VerifC07", bounds="m=2,maxlevel=0,modes=1,maxk=2,maxef=4,defaults=1", reach=["searched"]),
             dict(pkg="./index", entry="VerifC07", bounds="m=2,maxlevel=1,modes=2,maxk=2,maxef=4,defaults=2", reach=["searched"]),
         ],
     },
@@ -257,7 +257,7 @@ PROPS["C17"] = dict(
                   dict(pkg="./services", entry="VerifC12", bounds="rpclo=9,rpchi=9,maxdim=1", reach=["dataset-created", "handler-returned", "end"])],
         "thorough": [dict(pkg="./storage", entry="VerifC17", bounds="maxp=3,placements=4,preempt=2,gone=0,race=1", reach=["sized", "end"]),
                      dict(pkg="./storage", entry="VerifC17", bounds="maxp=3,placements=4,preempt=1,gone=1,race=1", reach=["sized", "end"]),
-                     dict(pkg="./services", entry="VerifC12", bounds="rpclo=9,rpchi=9,maxdim=2,noreplica=1", reach=["dataset-created", "handler-returned", "end"])],
+                     dict(pkg="./services", entry="VerifC12", bounds="rpclo=9,rpchi=9,maxdim=1", reach=["dataset-created", "handler-returned", "end"])],
     },
     outside="more than 3 partitions / 2 remote nodes (2 partitions in the quick run with departed nodes); caller-context cancellation; interleavings finer than synchronisation points",
     assumptions=COMMON_ASSUME + ["data races: vector-clock happens-before detection (verifrt.RaceDetect) on every explored schedule; the harness' own recording objects are guarded by verifrt.HarnessLock","remote data-manager services are harness implementations of pb.DataManagerClient",
@@ -452,8 +452,8 @@ PROPS["C03"] = dict(
             dict(pkg="./storage", entry="VerifC03Cluster", bounds="ops=2,ids=2,crashes=1,maxflush=10,compact=1", unwind=4000, no_native=True, max_seconds=5400, reach=["written", "restarted", "end"]),
             dict(pkg="./storage", entry="VerifC03Cluster", bounds="ops=2,ids=2,faults=1", unwind=4000, no_native=True, max_seconds=5400, reach=["written", "end"]),
             dict(pkg="./storage", entry="VerifC03Cluster", bounds="ops=3,ids=1,crashes=1,maxflush=8", unwind=4000, no_native=True, max_seconds=5400, reach=["written", "restarted", "end"]),
-            dict(pkg=".", entry="VerifC14Crash", bounds="members=1,creates=2,deletes=1,items=4,maxflush=48,compactitems=1", unwind=4000, no_native=True, max_seconds=5400, reach=["written", "restarted", "items-checked", "end"]),
-            dict(pkg=".", entry="VerifC14Crash", bounds="members=2,creates=1,deletes=0,items=3,maxflush=40,compactitems=1", unwind=4000, no_native=True, max_seconds=5400, reach=["written", "restarted", "items-checked", "end"]),
+            dict(pkg=".", entry="VerifC14Crash", bounds="members=1,creates=2,deletes=1,items=4,maxflush=44", unwind=4000, no_native=True, max_seconds=5400, reach=["written", "restarted", "items-checked", "end"]),
+            dict(pkg=".", entry="VerifC14Crash", bounds="members=2,creates=1,deletes=0,items=2,maxflush=24", unwind=4000, no_native=True, max_seconds=5400, reach=["written", "restarted", "items-checked", "end"]),
         ],
     },
     outside="more than 3 replicas / 3 writes; more than one crashed replica (a minority of 3), crash instants other than the durable-write boundaries of the crashed replica's store; one partition, one message fault; batch writes in the cluster harness; goroutine schedules other than the deterministic one between harness-driven ticks; Badger's own durability (the API-level model makes a flushed batch durable atomically); more than 2 Readys in the Ready-shape harness",
@@ -561,11 +561,10 @@ PROPS["C13"] = dict(
             dict(pkg="./index", entry="VerifC13", bounds="cfg=2,preempt=2,init=2,ids=3,maxlevel=1,writers=1,kinds=4,race=1", max_seconds=3000, reach=["joined", "end"]),
             dict(pkg="./index", entry="VerifC13", bounds="cfg=0,preempt=1,init=2,ids=3,maxlevel=1,writers=1,kinds=4,threads=3,race=1", max_seconds=3000, reach=["joined", "end"]),
             dict(pkg="./index", entry="VerifC13", bounds="cfg=0,preempt=2,init=2,ids=2,maxlevel=1,writers=1,kinds=2,readkinds=3", max_seconds=3000, reach=["joined", "end"]),
-            dict(pkg="./index", entry="VerifC13", bounds="cfg=4,preempt=2,init=3,ids=3,maxlevel=1,writers=1,minkind=1,kinds=2,minread=2,readkinds=3", max_seconds=3000, reach=["joined", "end"]),
             dict(pkg="./index", entry="VerifC13", bounds="cfg=0,preempt=2,init=2,ids=3,maxlevel=1,kinds=2,race=1", known_no_replay=True, vio_grace=0, max_seconds=3000, reach=["joined", "end"]),
             dict(pkg="./index", entry="VerifC13", bounds="cfg=0,preempt=2,init=3,ids=3,maxlevel=1,minkind=1,kinds=2", known_no_replay=True, vio_grace=0, max_seconds=3000, reach=["joined", "end"]),
             dict(pkg="./index", entry="VerifC13Update", bounds="preempt=2,init=3", max_seconds=3000, reach=["joined", "end"]),
-            dict(pkg="./index", entry="VerifC13Update", bounds="preempt=2,init=4,mininit=4,maxlevel=1,mink=3,queries=2", max_seconds=3000, reach=["joined", "end"]),
+            dict(pkg="./index", entry="VerifC13Update", bounds="preempt=2,init=4,mininit=4,maxlevel=0,mink=4,queries=2", reach=["joined", "end"]),
         ],
     },
     outside="weak-memory effects beyond the happens-before criterion; races between operation pairs/ids/levels outside the bound; races the over-approximated happens-before of the channel and rwmutex models orders; more than 3 goroutines; more than one operation per goroutine; vectors are fixed 1-D points; timing/linearization points of searches beyond 'present initially or inserted concurrently'",
